@@ -58,8 +58,16 @@ class Prop:
               "Proved for all inputs (Properties/C04.v): placement for every form of `before`; effect + row-level frame of add, the four shortcuts, "
               "remove (branch / keep_children / with_clones = prune of the clone group), remove_children, clear, del, move_to, sort (flat and deep: permutation, sorted by key, stable, reverse), "
               "set_data/rename incl. clone groups, metadata edits; and for EVERY op and outcome that only the tree it works on can change. "
-              "Not restated in Coq (decided by correspondence + mut_spec only): remove(with_clones, keep_children) together, the copy family "
-              "(property C07), in-place filter (C08), from_dict."),
+              "Also proved (audit follow-up): set_data/rename write exactly the new data/id into exactly the node or its clone group "
+              "(C04_set_data_exact), the sibling shortcuts at step level, remove(with_clones, keep_children) together (splice), the in-place "
+              "filter and from_dict effects, sortedness on the DEFINED keys with 'Ok => keys defined', sort_deep fuel sufficiency, and PROGRESS: "
+              "a decidable valid_op / valid_move with 'valid => the step answers Ok' for add, shortcuts, add(node), remove, remove_children, "
+              "clear, del, sort, set_data, rename, metadata edits, new tree, Tree.copy, Node.copy, move_to (not for add(tree), copy_to("
+              "add_self=False), filter, from_dict).  The effect theorems are about Machine.step; C04_step_chk_ok transfers them to the guarded "
+              "step_chk the cases evaluate.  The sentence 'Equivalently: the state after an operation is the documented function of the state "
+              "before' has no single Coq-level specification independent of the machine's own helpers for add/move (placement laws C04_before_* "
+              "and the row frame are the independent content); the independent specification of every documented effect is harness/mut_spec.py, "
+              "evaluated on the implementation's observed before/after of every step.  The copy family is property C07."),
         technique="Coq proof about an executable Gallina model + differential correspondence check (vm_compute) + Python oracle",
         design_ref="DESIGN.md section 6 (C04), 3.2, 3.4",
     )
